@@ -45,7 +45,9 @@ GLOB_PATTERNS = {
     "starstar": ["**/abc", "**/keep.log", "**/logs", "src/**/a.log"],
     "qmark": ["a?c", "a??c", "?.log", "x.tm?"],
 }
-HG_REGEXPS = ["\\.log$", "\\.tmp$", "^build", "^src/lib", "abc", "keep\\.log", "^docs/", "logx$"]
+HG_REGEXPS = ["\\.log$", "\\.tmp$", "^build", "^src/lib", "abc", "keep\\.log", "^docs/", "logx$",
+              # the classic idiom for "this name at any level": the anchor is not the first character of the pattern
+              "(^|/)build$", "(?:^|/)src", "(^|/)abc", "(^|/)a\\.log$", "(^|/)docs/"]
 
 
 def examples(tier):
@@ -93,7 +95,8 @@ def strategy_(draw, tier, tool=None):
                 k = k0 if single else draw(st.sampled_from(kinds))
                 lines.append(draw(st.sampled_from(pool[k])))
             else:
-                lines.append(draw(st.sampled_from(HG_REGEXPS + ["^" + re.sub(r"([\\\\.\[\](){}+*?^$|])", r"\\\1", d) for d in pdirs[:3]])))
+                esc = [re.sub(r"([\\\\.\[\](){}+*?^$|])", r"\\\1", d) for d in pdirs[:3]]
+                lines.append(draw(st.sampled_from(HG_REGEXPS + ["^" + d for d in esc] + ["(^|/)" + d.split("/")[-1] + "$" for d in esc])))
     else:
         k0 = draw(st.sampled_from(GLOB_KINDS))
         for i in range(nlines):
@@ -395,7 +398,57 @@ def check_above(case):
     return out
 
 
+def enumerate_cases(tier):
+    # the ignore file sits in an ancestor of the root - and that ancestor is the root directory of the file system
+    return [{"kind": "fs-root-context", "tool": t, "root": r, "mode": m}
+            for t in ("hg", "docker") for r in ("/proj", "/proj/sub", "/") for m in ("", "dfs")]
+
+
+_fsroot = {"pid": None, "jail": None}
+
+
+def check_fs_root(case):
+    out = Outcome()
+    if _fsroot["pid"] != os.getpid() or not _fsroot["jail"] or not os.path.isdir(_fsroot["jail"]):
+        def pop(j):
+            os.makedirs(j + "/proj/sub")
+            os.makedirs(j + "/.hg")
+            for n in ("proj/a.log", "proj/keep.txt", "proj/sub/b.log", "proj/sub/c.txt", "top.log"):
+                open(j + "/" + n, "w").close()
+            with open(j + "/.hgignore", "w") as f:
+                f.write("syntax: glob\n*.log\nsyntax: regexp\n(^|/)c\\.txt$\n")
+            with open(j + "/.dockerignore", "w") as f:
+                f.write("**/*.log\n**/c.txt\n")
+        _fsroot.update(pid=os.getpid(), jail=runner.make_jail(pop))
+    j = _fsroot["jail"]
+    opt = {"hg": "hgignore", "docker": "dockerignore"}[case["tool"]]
+    q = "path from %s %s%s into list" % (case["root"], opt, (" " + case["mode"]) if case["mode"] else "")
+    q0 = "path from %s%s into list" % (case["root"], (" " + case["mode"]) if case["mode"] else "")
+    res = runner.run_jailed(j, [q], cwd="/proj")
+    res0 = runner.run_jailed(j, [q0], cwd="/proj")
+    out.evals += 2
+    if res.wall_timeout or res0.wall_timeout:
+        out.inconclusive = True
+        return out
+    if res.status != 0 or res0.status != 0 or res.err or res0.err:
+        out.add("C20/%s/fs-root-context/run-failed" % case["tool"], query=q, status=res.status, stderr=res.err[:200])
+        return out
+    got = sorted(r[0] for r in runner.rows(res.out, 1))
+    plain = sorted(r[0] for r in runner.rows(res0.out, 1))
+    want = [p for p in plain if not (p.endswith(".log") or p.endswith("/c.txt"))]
+    if got != want:
+        out.add("C20/%s/fs-root-context/%s" % (case["tool"], "under-ignore" if set(got) - set(want) else "over-ignore"), query=q,
+                wrongly_listed=sorted(set(got) - set(want))[:6], wrongly_ignored=sorted(set(want) - set(got))[:6])
+    out.nontrivial = len(want) < len(plain)
+    out.nt_keys = ["fs-root|%s|%s|%s" % (case["tool"], case["root"], case["mode"])]
+    out.classes = ["fs-root-context", "tool=" + case["tool"]]
+    out.sample = {"query": q, "listed": len(got), "unfiltered": len(plain)}
+    return out
+
+
 def check(case):
+    if case.get("kind") == "fs-root-context":
+        return check_fs_root(case)
     if case.get("kind") == "several-roots":
         return check_several(case)
     if case.get("kind") == "root-above":
